@@ -173,6 +173,8 @@ class RawClient(object):
         self.harvested = []       # id_packs the server sent us as REMOTE_REF
         self.answered = 0
         self.server_requests = 0
+        self.textlike = {}        # instance id of a forged "text-like" object of ours -> the name it claims to add up to
+        self.adaptive_answers = 0
 
     def send(self, kind, seq, args):
         try:
@@ -210,7 +212,69 @@ class RawClient(object):
                 self.answer(rng, vocab, m)
         return out
 
+    def adaptive(self, rng, m):
+        """the server asks about one of OUR forged text-like objects (sent where an attribute name belongs): say whatever helps -
+        it does not start with any prefix, hashes to nothing known, equals nothing, and 'prefix + it' is the name we are after.
+        -> reply args or None"""
+        H = rc.HANDLERS
+        boxed = m.get("boxed")
+        handler = m.get("handler")
+        try:
+            if handler == H["INSPECT"]:
+                idp = boxed[1][0] if boxed[0] == rc.LABEL_VALUE else None
+                if type(idp) is tuple and len(idp) == 3 and idp[2] in self.textlike:
+                    return (rc.LABEL_VALUE, tuple((n, None) for n in ("startswith", "__radd__", "__add__", "__hash__", "__eq__", "__ne__", "__str__",
+                                                                      "__len__", "encode", "__contains__", "__getitem__", "__iter__", "__format__", "lower")))
+                return None
+            first = boxed[1][0] if boxed[0] == rc.LABEL_TUPLE else None
+            if not (type(first) is tuple and first[0] == rc.LABEL_LOCAL_REF and type(first[1]) is tuple and len(first[1]) == 3 and first[1][2] in self.textlike):
+                return None
+            target = self.textlike[first[1][2]]
+            meth = None
+            if type(target) is tuple:
+                # one of the bound methods we handed out for such an object: it is being called now
+                if handler != H["CALL"]:
+                    return None
+                meth, target = target
+            if handler == H["GETATTR"]:
+                # plain method names are fetched first and called afterwards: hand out a function of ours and remember what it is
+                want = boxed[1][1][1]
+                fid = 2 * 10 ** 9 + len(self.textlike)
+                self.textlike[fid] = (want, target)
+                return (rc.LABEL_REMOTE_REF, ("builtins.function", 4141, fid))
+            if handler == H["CALLATTR"] or meth is not None:
+                if meth is None:
+                    meth = boxed[1][1][1]
+                if meth in ("startswith", "__eq__", "__contains__"):
+                    return (rc.LABEL_VALUE, False)
+                if meth in ("__ne__",):
+                    return (rc.LABEL_VALUE, True)
+                if meth in ("__radd__", "__add__", "__str__", "__format__", "lower"):
+                    return (rc.LABEL_VALUE, target)
+                if meth == "__hash__":
+                    return (rc.LABEL_VALUE, rng.randrange(1, 2 ** 40))
+                if meth == "__len__":
+                    return (rc.LABEL_VALUE, len(target))
+                if meth == "encode":
+                    return (rc.LABEL_VALUE, target.encode("utf8"))
+                return (rc.LABEL_VALUE, target)
+            if handler == H["HASH"]:
+                return (rc.LABEL_VALUE, rng.randrange(1, 2 ** 40))
+            if handler == H["CMP"]:
+                return (rc.LABEL_VALUE, False)
+            if handler in (H["STR"], H["REPR"]):
+                return (rc.LABEL_VALUE, target)
+        except Exception:
+            return None
+        return None
+
     def answer(self, rng, vocab, m):
+        smart = self.adaptive(rng, m)
+        if smart is not None:
+            self.send(rc.MSG_REPLY, m["seq"], smart)
+            self.answered += 1
+            self.adaptive_answers += 1
+            return
         c = rng.randrange(10)
         seq = m["seq"]
         if rng.random() < (.25 if m.get("handler") != rc.HANDLERS["HASH"] else .6):
@@ -232,6 +296,19 @@ class RawClient(object):
         self.answered += 1
 
 
+def _textlike_classes():
+    """names of classes loaded in this process that are kinds of text / bytes without being the built-in types themselves"""
+    out = []
+    for modname, mod in sorted(sys.modules.items()):
+        if mod is None or modname.startswith(("rv", "checks")):
+            continue
+        for n, k in sorted(getattr(mod, "__dict__", {}).items()):
+            if isinstance(k, type) and issubclass(k, (str, bytes)) and k not in (str, bytes) and getattr(k, "__module__", None) == modname and k.__name__ == n:
+                out.append("%s.%s" % (modname, n))
+    return out[:12] + ["builtins.str", "builtins.bytes"]
+
+
+TEXTLIKE = _textlike_classes()
 METHOD_NAMES = ["__call__", "__len__", "__iter__", "__next__", "__getitem__", "__class__", "__init__", "__del__", "____conn__",
                 "__getattribute__", "__slots__", "__dict__", "__eq__", "__hash__", "__enter__", "__exit__", "__reduce_ex__",
                 "__init_subclass__", "__set_name__", "__array__", "__getslice__", "mro", "x", "", 5, None, b"bytes", ("t",),
@@ -306,7 +383,14 @@ def gen_request(rng, cli, vocab):
         return (rc.LABEL_VALUE, v)
 
     def name():
-        n = val(rng.choice(ATTR_VOCAB))
+        if rng.random() < .1:
+            # not a text at all but a reference to an object of OURS whose class claims to be a kind of text; every question the
+            # server asks about it is answered adaptively (RawClient.adaptive)
+            oid = rng.randrange(10 ** 6, 10 ** 9)
+            cli.textlike[oid] = rng.choice(["_hidden", "secret", "dangerous", "vault", "_token", "not_exposed", "wipe", "__dict__", "__class__"])
+            n = (rc.LABEL_REMOTE_REF, (rng.choice(TEXTLIKE), rng.randrange(1, 10 ** 6), oid))
+        else:
+            n = val(rng.choice(ATTR_VOCAB))
         vocab["_n"] = n
         return n
 
@@ -476,6 +560,7 @@ def session(ctx, rng, idx, vocab_base):
                 break
         ctx.count("messages_sent", nmsg)
         ctx.count("server_requests_answered", cli.answered)
+        ctx.count("server_questions_about_forged_names_answered_adaptively", cli.adaptive_answers)
         if ended or b.closed:
             ctx.count("sessions_ended_by_server")
         try:
